@@ -2,11 +2,18 @@
 from vlib.common import *
 
 META = {
-    "text": "Lean theorems (bulk_positional, bulk_order, bulk_stops, bulk_stops_unless_requested, cont_flag_iff, bulk_flag, bulk_continue_all) about Model.Bulk.processBulk for every element list, "
-            "backend behaviour and flag value; the model is tied to the real v2 router/bulkHandler/ProcessBulk by a seeded differential over a scripted "
-            "backend, and an independent oracle evaluates the property on the implementation's own outputs.",
-    "note": "Trusted: Lean kernel (axioms propext/Classical.choice/Quot.sound at most), the abstraction of an element to (action, decodable?, backend outcome), "
-            "the Go harness and its fake backend.Ledger. The engine behind the backend is out of scope of C18.",
+    "text": "Lean theorems (bulk_positional, bulk_order, bulk_stops, bulk_stops_unless_requested, cont_flag_iff, bulk_flag, bulk_continue_all, "
+            "failed_before_backend_never_executed, bulk_error_origin (a result ERROR means: failed before the backend call and never executed, or the backend call itself failed), "
+            "undecodable_body_never_executed, bulk_codes, uncompilable_script_fails_in_backend) about Model.Bulk.processBulk for every element list, "
+            "backend behaviour and flag value; the model is tied to the real v2 router/bulkHandler/ProcessBulk by a seeded differential that sends REAL element bodies of every shape "
+            "the handler and the engine branch on (transactions by postings / by a script / by a script the real compiler refuses / by both / by neither, metadata targets of every "
+            "kind with well- and ill-formed ids, reverts with their flags, missing / null / mistyped data) over a backend that answers with the error values of "
+            "internal/engine/command/errors.go (so the handler's own error mapping runs for every class); results, error codes, calls and status are compared, and an independent oracle "
+            "evaluates the property on the implementation's own outputs: one result per processed element, result i describes element i, an element answered ERROR was not executed "
+            "unless the error is the backend's own, an element answered with its action was executed exactly once, HTTP 400 <=> some result is ERROR.",
+    "note": "Trusted: Lean kernel (axioms propext/Classical.choice/Quot.sound at most); Model.Bulk.decodes / engineAns (which bodies the decoder refuses, which the engine refuses first) "
+            "are tied to the code by the differential only; the Go harness and its fake backend.Ledger (it runs the REAL Numscript compiler + SetVarsFromJSON on the script of a transaction, "
+            "as Commander.exec does, then answers as scripted). The rest of the engine behind the backend is out of scope of C18.",
     "technique": "Lean 4 proof by structural induction over the element list + differential correspondence with ProcessBulk",
     "design_ref": "5 (C18), 3.8",
 }
@@ -24,8 +31,44 @@ def requested(inp):
     return raw.lower() in ("1", "true")
 
 
+# ---- what the property demands of an element, read off its body (independent of the Lean model).
+# Shapes every reading refuses before anything is executed / refuses (possibly after handing them to the engine) / may be read
+# either way (then the answer only has to be CONSISTENT: refused and not executed, or executed once and answered as a success):
+ANY_UNCALLED = {"wrongshape", "badfield", "nodata", "postings_badamount"}
+UNCALLED = {"ADD_METADATA": {"notarget", "tx_strid", "tx_fracid", "null"}, "DELETE_METADATA": {"notarget", "tx_strid", "tx_fracid", "null"},
+            "REVERT_TRANSACTION": {"strid", "fracid", "force_str"}, "CREATE_TRANSACTION": set()}
+REFUSED = {"CREATE_TRANSACTION": {"script_broken", "script_novars", "neither", "empty_postings", "script_empty", "null"}}
+EITHER = {"CREATE_TRANSACTION": {"both", "both_broken"},
+          "ADD_METADATA": {"tx_negid", "tx_nullid", "acct_numid", "acct_emptyid", "acct_objid", "unknown_target", "lower_target", "no_targettype"},
+          "DELETE_METADATA": {"tx_negid", "tx_nullid", "acct_numid", "acct_emptyid", "acct_objid", "unknown_target", "lower_target", "no_targettype"},
+          "REVERT_TRANSACTION": {"noid", "null"}}
+KIND_OF = {"CREATE_TRANSACTION": "create", "ADD_METADATA": "savemeta", "REVERT_TRANSACTION": "revert", "DELETE_METADATA": "deletemeta"}
+
+
+def expect(e):
+    """'uncalled' (must be ERROR, never handed to the backend) | 'refused' (must be ERROR, never executed successfully) |
+    'either' | 'success' | 'backend-error' (well-formed, the scripted backend answers with an error)"""
+    a, d = e["action"], e["data"]
+    if a not in KNOWN_ACTIONS or d in ANY_UNCALLED or d in UNCALLED.get(a, ()):
+        return "uncalled"
+    if d in REFUSED.get(a, ()):
+        return "refused"
+    if e["outcome"] != "ok":
+        return "backend-error"
+    if d in EITHER.get(a, ()):
+        return "either"
+    return "success"
+
+
+def cause(e):
+    return ("unknown-action" if e["action"] not in KNOWN_ACTIONS else
+            "backend-" + e["outcome"] if expect(e) == "backend-error" else
+            "undecodable-data" if expect(e) == "uncalled" else "body-" + e["data"])
+
+
 def elem_fails(e):
-    return e["action"] not in KNOWN_ACTIONS or e["data"] != "good" or e["outcome"] != "ok"
+    """for the input statistics only"""
+    return expect(e) in ("uncalled", "refused", "backend-error")
 
 
 def oracle(inp, out):
@@ -39,54 +82,85 @@ def oracle(inp, out):
         if out["calls"] or out["results"] or out["status"] != 400:
             return [({"class": "rejected-body-executed"}, "a body that is not JSON led to calls/results/status %s" % out["status"])]
         return []
-    fails = [elem_fails(e) for e in elems]
-    first = next((i for i, f in enumerate(fails) if f), None)
-    processed = len(elems) if (cont or first is None) else first + 1
-    res = out["results"]
-
-    def cause(i):
-        e = elems[i]
-        return ("unknown-action" if e["action"] not in KNOWN_ACTIONS else
-                "undecodable-data" if e["data"] != "good" else "backend-" + e["outcome"])
-    # exactly one result per processed element, at the same position
+    res, calls = out["results"], out["calls"]
+    by_elem = {}
+    for c in calls:
+        by_elem.setdefault(c["idx"], []).append(c)
+    # position by position: result i describes element i; an element answered ERROR was not executed (a call made for it failed);
+    # an element answered with its action was executed exactly once
+    stop_at = None
+    for i, e in enumerate(elems):
+        if i >= len(res):
+            break
+        r, cs = res[i], by_elem.get(i, [])
+        done = [c for c in cs if c.get("ok", True)]
+        want = expect(e)
+        if r != "ERROR" and (r != e["action"] or e["action"] not in KNOWN_ACTIONS):
+            v.append(({"class": "positional", "cause": cause(e)}, "result %d is %r, element %d is a %r" % (i, r, i, e["action"])))
+        elif r == "ERROR":
+            if done:
+                v.append(({"class": "positional", "cause": "error-but-executed"},
+                          "element %d (%s, body %s) is answered ERROR and was executed all the same (%s call succeeded)" % (i, e["action"], e["data"], done[0]["kind"])))
+            if want == "success":
+                v.append(({"class": "positional", "cause": cause(e)}, "result %d is 'ERROR', element %d demands %r" % (i, i, e["action"])))
+            elif want == "backend-error" and not cs:
+                v.append(({"class": "order", "cause": "missing-call"}, "element %d is well-formed and was never handed to the backend" % i))
+        else:
+            if want in ("uncalled", "refused", "backend-error"):
+                v.append(({"class": "positional", "cause": cause(e)}, "result %d is %r, element %d demands 'ERROR'" % (i, r, i)))
+            if len(done) != 1:
+                v.append(({"class": "order", "cause": "missing-call" if not done else "executed-twice"},
+                          "element %d is answered %r and was executed %d times" % (i, r, len(done))))
+        if want == "uncalled" and cs:
+            v.append(({"class": "order", "cause": "spurious-call"}, "call for element %s that is not executable" % i))
+        if len(cs) > 1:
+            v.append(({"class": "order", "cause": "executed-twice"}, "%d backend calls for element %d" % (len(cs), i)))
+        if r == "ERROR" and not cont:
+            stop_at = i
+            break
+    processed = len(elems) if stop_at is None else stop_at + 1
+    # exactly one result per processed element
     if len(res) != processed:
-        blame = next((cause(i) for i in range(processed) if fails[i] and cause(i) in ("unknown-action", "undecodable-data")), "other")
+        blame = next((cause(elems[i]) for i in range(min(processed, len(elems))) if expect(elems[i]) != "success"), "other")
         v.append(({"class": "positional", "cause": blame},
                   "%d results for %d processed elements (%s)" % (len(res), processed, blame)))
-    else:
-        for i in range(processed):
-            want = "ERROR" if fails[i] else elems[i]["action"]
-            if res[i] != want:
-                v.append(({"class": "positional", "cause": cause(i)}, "result %d is %r, element %d demands %r" % (i, res[i], i, want)))
-                break
-    # strictly in the order given; each call belongs to a processed, executable element
-    idxs = [c["idx"] for c in out["calls"]]
+    # strictly in the order given; each call belongs to a processed element, is of its kind and carries its parameters
+    idxs = [c["idx"] for c in calls]
     if any(b <= a for a, b in zip(idxs, idxs[1:])):
         v.append(({"class": "order"}, "backend calls out of order: %s" % idxs))
-    for c in out["calls"]:
+    for c in calls:
         i = c["idx"]
-        if not (0 <= i < len(elems)) or elems[i]["action"] not in KNOWN_ACTIONS or elems[i]["data"] != "good":
+        if not (0 <= i < len(elems)) or elems[i]["action"] not in KNOWN_ACTIONS:
             v.append(({"class": "order", "cause": "spurious-call"}, "call for element %s that is not executable" % i))
-        elif c["ik"] != elems[i]["ik"] or c["dry"]:
+            continue
+        e = elems[i]
+        if c["kind"] != KIND_OF[e["action"]]:
+            v.append(({"class": "order", "cause": "spurious-call"}, "element %d (%s) led to a %s call" % (i, e["action"], c["kind"])))
+        elif c["ik"] != e["ik"] or c["dry"]:
             v.append(({"class": "order", "cause": "parameters"}, "element %d executed with ik=%r dry=%r" % (i, c["ik"], c["dry"])))
-    want_calls = [i for i in range(processed) if elems[i]["action"] in KNOWN_ACTIONS and elems[i]["data"] == "good"]
-    if not v and idxs != want_calls:
-        if (not cont) and first is not None and any(i > first for i in idxs):
-            v.append(({"class": "stop"}, "elements after the first failure (%d) were executed: %s" % (first, idxs)))
-        else:
-            v.append(({"class": "order", "cause": "missing-call"}, "calls %s, expected %s" % (idxs, want_calls)))
+        elif c["kind"] == "revert" and "force" in c and e["data"] in ("good", "force", "at_effective", "noid") and c["force"] != (e["data"] in ("force", "noid")):
+            v.append(({"class": "order", "cause": "parameters"}, "revert element %d (%s) executed with force=%r" % (i, e["data"], c["force"])))
+        if i >= processed:
+            if (not cont) and stop_at is not None:
+                v.append(({"class": "stop"}, "elements after the first failure (%d) were executed: %s" % (stop_at, idxs)))
+            else:
+                v.append(({"class": "order", "cause": "spurious-call"}, "call for element %d, which has no result" % i))
     # the response signals failure exactly when some element failed
-    failed = any(fails[:processed])
+    failed = "ERROR" in res
     if (out["status"] == 400) != failed or out["status"] not in (200, 400):
-        v.append(({"class": "flag"}, "status %s although failed=%s" % (out["status"], failed)))
+        v.append(({"class": "flag"}, "status %s although %s" % (out["status"], "result %d is an ERROR" % res.index("ERROR") if failed else "no result is an ERROR")))
+    # an error code on the ERROR results, none on the others
+    codes = out.get("codes", [])
+    if len(codes) == len(res) and any((c != "") != (r == "ERROR") for c, r in zip(codes, res)):
+        v.append(({"class": "positional", "cause": "error-code"}, "error codes %s do not match the results %s" % (codes, res)))
     return v
 
 
 def run(ctx):
     ctx.cov["trusted_base"] = [
         "Lean 4.33 kernel; axioms allowed: propext, Classical.choice, Quot.sound",
-        "Model.Bulk abstracts an element to (action, data decodes?, backend outcome); tied to ProcessBulk/bulkHandler by the differential only",
-        "harness fake backend.Ledger (scripted outcomes), real v2 router + bulkHandler + ProcessBulk in-process",
+        "Model.Bulk abstracts an element to (action, data decodes?, backend answer); decodes / engineAns / backendCode say where these come from for real bodies; tied to ProcessBulk/bulkHandler by the differential only",
+        "harness fake backend.Ledger (real Numscript compiler on the script of a transaction, then scripted answers built with the engine's error constructors), real v2 router + bulkHandler + ProcessBulk in-process",
     ]
     ctx.l1()
     if not (ctx.ensure_driver() and ctx.ensure_harness()):
@@ -96,8 +170,8 @@ def run(ctx):
     if r is None:
         return
     inputs, impl, model = r
-    compare(ctx, "bulk:results+calls+status", inputs, impl, model,
-            proj_impl=lambda i, o: {"status": o.get("status"), "results": o.get("results"),
+    compare(ctx, "bulk:results+codes+calls+status", inputs, impl, model,
+            proj_impl=lambda i, o: {"status": o.get("status"), "results": o.get("results"), "codes": o.get("codes"),
                                     "calls": [c["idx"] for c in o.get("calls", [])]} if "panic" not in o else o)
     seen, nontrivial = set(), 0
     for inp in inputs:
@@ -114,9 +188,11 @@ def run(ctx):
         seen.add(h)
     ctx.cov["evaluations"] = len(inputs)
     ctx.cov["distinct_nontrivial"] = nontrivial
-    ctx.cov["rule"] = ("random bulk bodies (1..%d elements; known/unknown actions; decodable/undecodable data; scripted backend outcomes; "
-                       "both continueOnFailure values, a third of the requests spelling the flag in one of 22 ways (true/TRUE/1/false/0/no/False/yes/on/bare/empty/padded …); per-element idempotency keys); non-trivial = distinct body with a failing or "
-                       "unknown element that is not in last position") % (5 if ctx.quick else 8)
+    ctx.cov["rule"] = ("two streams. (1) random bulk bodies (1..%d elements; known/unknown actions; decodable/undecodable data; scripted backend outcomes; "
+                       "both continueOnFailure values, a third of the requests spelling the flag in one of 22 ways (true/TRUE/1/false/0/no/False/yes/on/bare/empty/padded …); per-element idempotency keys; "
+                       "a request-level Idempotency-Key header). (2) real element bodies: every body shape of every action and every backend error class once in the middle of a bulk, alone, "
+                       "with and without continueOnFailure, then random mixes of them (40 %% of the elements carry a special shape, 20 %% a failing backend answer); "
+                       "non-trivial = distinct body with a failing or unknown element that is not in last position") % (5 if ctx.quick else 8)
     ctx.cov["samples"] = [{"input": i, "impl": impl.get(i["id"])} for i in inputs[1:4]]
     dist = {}
     for inp in inputs:
@@ -124,4 +200,15 @@ def run(ctx):
             k = ("unknown" if e["action"] not in KNOWN_ACTIONS else e["action"]) + "/" + e["data"] + "/" + e["outcome"]
             dist[k] = dist.get(k, 0) + 1
     ctx.cov["input_distribution"] = dist
+    verdicts = {}
+    for inp in inputs:
+        out = impl.get(inp["id"]) or {}
+        by = {}
+        for c in out.get("calls", []):
+            by.setdefault(c["idx"], []).append(c)
+        for i, (e, r) in enumerate(zip(inp["elems"], out.get("results", []))):
+            how = ("ok" if r != "ERROR" else "error before the backend call" if not by.get(i) else "error of the backend call")
+            k = expect(e) + " -> " + how
+            verdicts[k] = verdicts.get(k, 0) + 1
+    ctx.cov["element_verdicts"] = verdicts
     ctx.assumptions += ["the engine behind backend.Ledger is replaced by a scripted fake: C18 is about the bulk layer only"]
